@@ -172,5 +172,34 @@ def main(ctx):
                     for f in fl:
                         jobs.append((cname, cargs, special, prior, mname, margs, t, f))
     pmap(lambda j: one(ctx, *j), jobs)
+    # The output file is created by a background task while the main thread carries on: a failure
+    # that strikes soon after layout races with that task. Repeat the fast failures many times so
+    # that both orders of (error path, file creation) are seen.
+    reps = ctx.pick(150, 1500)
+    ncreated = [0]
+
+    def rep(k):
+        cname = ("assert-failure", "relocation-overflow")[k % 2]
+        cargs, special = cs[cname]
+        cid = f"race/{cname}/{k}"
+        if ctx.replay is not None and ctx.replay.get("case") != cid:
+            return
+        wd = ctx.scratch.dir("race", k % 64, k)
+        out = os.path.join(wd, "out.bin")
+        cmd = [tools.wild(), *cargs, f"--threads={(2, 4, 16)[k % 3]}", "-o", out]
+        r = run(cmd, timeout=60, cwd=wd)
+        if r.timed_out or r.rc == 0 or r.signal is not None:
+            ctx.inconclusive("race repetition did not fail by an error")
+            return
+        # give a late background creation a moment (the process has exited, so this is only about
+        # what is on disk now)
+        if os.path.lexists(out):
+            ctx.violation(f"output-left-or-modified:cause={cname}:prior=absent:mode=default",
+                          f"failed link ({cname}) left a file at the output path (repetition {k}: creation raced with the error path)",
+                          case=cid, files={"cmd.txt": " ".join(cmd), "stderr.txt": r.errtext()})
+        else:
+            ctx.held(fingerprint=cid if k < 4 else None, nontrivial=True)
+            ctx.note("race_repetitions_clean")
+    pmap(rep, range(reps))
     ctx.exhaustive = True
     ctx.extra["exhaustive_scope"] = "cause x prior state x mode (x threads x fork in thorough) matrix enumerated completely"
